@@ -18,6 +18,7 @@ from pathlib import Path
 from collections import OrderedDict  # TODO: replace by dict
 
 from resolva import Resolver
+from resolva.utils import ResolvaException
 
 from spil.util.caching import lru_kw_cache as cache
 from spil.util.log import debug
@@ -57,13 +58,19 @@ def path_to_dict(
     r = Resolver.get(pc.name)
 
     if _type:
-        data = r.resolve_one(path, _type)
-        template = _type
+        template, data = _type, _resolve_conform(r, path, _type)
     else:
-        template, data = r.resolve_first(path)
+        template, data = None, None
+        for label in r.get_labels():  # first template the path conforms to
+            data = _resolve_conform(r, path, label)
+            if data:
+                template = label
+                break
 
     if not data:
         return None, None
+
+    data = data.copy()  # the resolver caches and shares its result dictionaries
 
     # path mapping
     for key, value in data.items():
@@ -99,6 +106,23 @@ def path_to_dict(
         ordered[key] = data.get(key)
 
     return template, ordered
+
+
+def _resolve_conform(r: Resolver, path: str, label: str) -> dict:
+    """
+    Resolves the path with the template "label".
+    Returns an empty dict if the path does not conform to the template. This includes:
+    - a field that the template repeats (directory and file name) carries two different values,
+    - the template does not account for the whole path, literally
+      (the regex ends with "$", which ignores a trailing newline, and template literals like "." are regex wildcards).
+    """
+    try:
+        data = r.resolve_one(path, label)
+    except ResolvaException:
+        return {}
+    if data and r.get_format_for(label).format(**data) != path:
+        return {}
+    return data
 
 
 def dict_to_path(data: dict, _type: Optional[str] = None, config: Optional[str] = None) -> Path:
